@@ -247,7 +247,7 @@ func dirGen(g *genCtx) {
 	cat := rtEncodeCatalogue()
 	emit := func(ops []string) { g.emit("rt", cat, strings.Join(ops, ";")) }
 	names := []string{"a.mtail", "b.mtail", "c.mtail", ".hidden.mtail", "notes.txt", "sub", "prog.mtail.bak", "x.mtail.txt", ".mtail", "mtail"}
-	vers := []int{0, 1, 6, 7, 9, 3, 12, 13}
+	vers := []int{0, 1, 6, 7, 9, 3, 12, 13, 14, 15}
 	// systematic: every file name with a good program, alone
 	for _, n := range names {
 		emit([]string{"w:" + n + ":0", "load", "l:x", "load"})
@@ -259,6 +259,12 @@ func dirGen(g *genCtx) {
 			emit([]string{fmt.Sprintf("w:a.mtail:%d", a), "load", "l:x", fmt.Sprintf("w:a.mtail:%d", b), "load", "l:y", "rm:a.mtail", "load", "l:x", fmt.Sprintf("w:a.mtail:%d", b), "load", "l:y"})
 			emit([]string{fmt.Sprintf("w:a.mtail:%d", a), "load", "l:x", "mv:a.mtail:c.mtail", "load", "l:y", fmt.Sprintf("w:c.mtail:%d", b), "load", "l:x"})
 		}
+	}
+	// a directory takes the name of a program that ran: the program is gone all the same
+	for _, v := range []int{0, 9} {
+		emit([]string{fmt.Sprintf("w:a.mtail:%d", v), "load", "l:x", "rm:a.mtail", "mkdir:a.mtail", "load", "l:y", "load", "l:x"})
+		emit([]string{fmt.Sprintf("w:a.mtail:%d", v), "load", "l:x", "mv:a.mtail:c.mtail", "mkdir:a.mtail", "w:a.mtail/inner.mtail:0", "load", "l:y", "load", "l:x"})
+		emit([]string{"mkdir:a.mtail", "load", "l:x", "rm:a.mtail", fmt.Sprintf("w:a.mtail:%d", v), "load", "l:y"})
 	}
 	// several kind conflicts in one refused load
 	emit([]string{"w:a.mtail:13", "load", "l:x", "w:b.mtail:12", "load", "l:y", "load"})
@@ -280,6 +286,10 @@ func dirGen(g *genCtx) {
 				ops = append(ops, "l:"+[]string{"x", "y"}[g.r.intn(2)])
 			case 7:
 				ops = append(ops, "rm:"+names[g.r.intn(5)])
+				if g.r.chance(1, 4) {
+					// ... and a directory takes the name
+					ops = append(ops, "mkdir:"+strings.TrimPrefix(ops[len(ops)-1], "rm:"))
+				}
 			case 8:
 				ops = append(ops, fmt.Sprintf("mv:%s:%s", names[g.r.intn(3)], names[g.r.intn(5)]))
 			case 9:
